@@ -28,7 +28,7 @@ type c19Case struct {
 	Upd2  *bool     `json:"update_option2"`
 }
 
-var hostileValues = []string{"", "\r", "a\r\nb\r\n", "line\r", "---", "a\n---\nb", "/-/-/-/", "\x00", "\xff\xfe", "[TestA - 1]\nx\n---\n", "\n", "\n\n", "trailing\n", " ", "tab\t", "é", "a\rb", "---\r\n---"}
+var hostileValues = []string{"\ufeff", "\ufeffwith bom", "", "\r", "a\r\nb\r\n", "line\r", "---", "a\n---\nb", "/-/-/-/", "\x00", "\xff\xfe", "[TestA - 1]\nx\n---\n", "\n", "\n\n", "trailing\n", " ", "tab\t", "é", "a\rb", "---\r\n---"}
 
 func genStandaloneValue(t *rapid.T) Val {
 	switch rapid.IntRange(0, 9).Draw(t, "svk") {
